@@ -54,6 +54,13 @@ Decide ==
     /\ mpc' = IF Sequential THEN "seq" ELSE "spawn_coll"
     /\ UNCHANGED <<N, P, T, nblocks, blocks, wpc, chan, senders, cpc, merged, recvd, result, panic>>
 
+\* the same step with the decision left open: which path is taken is not part of C15 (both must give the same map), so
+\* the trace specification accepts either and only notes a decision that differs from the documented rule
+DecideTo(t) ==
+    /\ mpc = "decide" /\ t \in {"seq", "spawn_coll"}
+    /\ mpc' = t
+    /\ UNCHANGED <<N, P, T, nblocks, blocks, wpc, chan, senders, cpc, merged, recvd, result, panic>>
+
 SeqRun ==
     /\ mpc = "seq"
     /\ result' = 1..N /\ mpc' = "done"
